@@ -23,11 +23,13 @@ import (
 	"encoding/json"
 	"fmt"
 	"os"
+	"reflect"
 	"strings"
 	"sync"
 	"syscall"
 	"testing"
 	"time"
+	"unsafe"
 
 	"pgregory.net/rapid"
 
@@ -87,8 +89,41 @@ type vf19Mon struct {
 func vf19NewMon() *vf19Mon {
 	mo := &vf19Mon{}
 	mo.cond = sync.NewCond(&mo.mu)
-	mo.m = &termMonitor{sigChan: make(chan os.Signal), handlerChan: make(chan int)}
+	// Both channels unbuffered, as newTermMonitor makes them.  Built by reflection
+	// so that the harness still compiles when the element type of handlerChan
+	// changes (only onHandlerStart/onHandlerFinish send on it here).
+	mo.m = &termMonitor{}
+	rv := reflect.ValueOf(mo.m).Elem()
+	for _, name := range []string{"sigChan", "handlerChan"} {
+		f := rv.FieldByName(name)
+		if !f.IsValid() || f.Kind() != reflect.Chan {
+			vf19Inconclusive("termMonitor has no channel field %s", name)
+		}
+		reflect.NewAt(f.Type(), unsafe.Pointer(f.UnsafeAddr())).Elem().Set(reflect.MakeChan(f.Type(), 0))
+	}
 	return mo
+}
+
+// checkTrue evaluates the wait(true) oracles at a settled point; returned
+// reports that wait(true) has returned (and its value was checked).
+func (mo *vf19Mon) checkTrue(st *vf19HistStats, desc string) (returned bool, msg string) {
+	if !mo.settle(1) {
+		mo.mu.Lock()
+		d, sig2 := mo.delivered, mo.nsig == 2 && mo.sigDone[1]
+		mo.mu.Unlock()
+		if d != 0 && !sig2 {
+			return false, "" // handlers are active, no second signal: wait(true) has to keep running
+		}
+		if !mo.awaitReturn(1) {
+			why := "no handler is active"
+			if sig2 {
+				why = "a second signal was delivered"
+			}
+			return false, fmt.Sprintf("VIOL[c19-shutdown-hang]: wait(true) does not return although %s (all senders completed, goroutine dump shows wait parked in select, 2 s passed); %s", why, desc)
+		}
+	}
+	mo.stable()
+	return true, mo.returnOracle(st, desc)
 }
 
 // deliverLocked is called by a sender right after its send completed.
@@ -471,26 +506,12 @@ func vf19RunHist(h vf19Hist, st *vf19HistStats) string {
 		mo.callWait(1, true)
 		phase = 2
 	}
-	// checkTrue evaluates the wait(true) oracles at a settled point.
 	checkTrue := func() string {
-		if !mo.settle(1) {
-			mo.mu.Lock()
-			d, sig2 := mo.delivered, mo.nsig == 2 && mo.sigDone[1]
-			mo.mu.Unlock()
-			if d != 0 && !sig2 {
-				return "" // handlers are active, no second signal: wait(true) has to keep running
-			}
-			if !mo.awaitReturn(1) {
-				why := "no handler is active"
-				if sig2 {
-					why = "a second signal was delivered"
-				}
-				return fmt.Sprintf("VIOL[c19-shutdown-hang]: wait(true) does not return although %s (all senders completed, goroutine dump shows wait parked in select, 2 s passed); %s", why, desc)
-			}
+		returned, msg := mo.checkTrue(st, desc)
+		if returned {
+			phase = 3
 		}
-		mo.stable()
-		phase = 3
-		return mo.returnOracle(st, desc)
+		return msg
 	}
 
 	for i, tok := range h {
